@@ -19,8 +19,8 @@ CLAIMED = {
              note="Trusted: qsort model over the real comparators, ctype tables of the real libc, CBMC's IEEE-754 division. <=3 rows, widths <=5; gap-free files excluded by the property.", ref="DESIGN.md §4 C17"),
  "C15": dict(text="Bounded model checking of the three writers: their output on an in-memory tape is parsed by an independent reader (FASTA 60-column wrapping, Clustal/MSF header, every sequence in every block, <=60 columns per line, separators), and the values handed to printf for the MSF header (length, molecule type, per-row and total GCG checksums) equal a reference computed from the GCG definition, for all row contents and both molecule kinds.",
              note="Trusted: the I/O model (fprintf/snprintf/fopen -> tape; integer rendering by libc), alloc_line_buffer stand-in installed by goto-instrument --replace-calls, qsort/ctype/strstr models. Name characters concrete (lengths enumerated); widths as listed incl. 59/60/61/120/121 (thorough).", ref="DESIGN.md §4 C15"),
- "C06": dict(text="Bounded model checking of write -> read: the real writer fills an in-memory tape, the tape is handed to the real detect_alignment_format and reader as the input buffer, and the solver shows for all row contents that the same rows, names, residues and gap vectors come back (FASTA and Clustal; small widths fully symbolic, width 61 with a symbolic window around the 60-column block edge).",
-             note="Trusted: I/O tape model with a layout oracle (deviations are reported), allocation models, qsort/ctype/str models. MSF read-back is only attempted in the thorough tier (symex of read_msf on the tape did not finish in the quick budget); names <= 3 characters.", ref="DESIGN.md §4 C06"),
+ "C06": dict(text="Bounded model checking of write -> read: the real writer fills an in-memory tape, the tape is handed to the real detect_alignment_format and reader as the input buffer, and the solver shows for all row contents that the same rows, names, residues and gap vectors come back (FASTA, Clustal and MSF; small widths fully symbolic, width 61 with a symbolic window around the 60-column block edge; names that are proper prefixes of each other in both orders).",
+             note="Trusted: I/O tape model with a layout oracle (deviations are reported), allocation models, qsort/ctype/str models. MSF instances fix the molecule kind per instance (both kinds run); names <= 3 characters, symbolic name characters for FASTA only.", ref="DESIGN.md §4 C06"),
  "C13": dict(text="SMT (z3 + cvc5, QF_LRA) over ALL character histograms of any size: with the letter models exported by the real detect_alphabet (guarded hook) and the participation mask probed from the real function, the solver shows that all-nucleotide input is always classified nucleotide and that >= 1/4 protein-only letters are always classified protein (U-rich case excluded as a recorded known finding), with an explicit IEEE rounding band; CBMC shows the function reads nothing but the histogram.",
              note="Trusted: linear structure of the function (re-validated against the real function on 3000+ histograms per run), rounding bound 130*2^-53, libm log as executed. One source hook (KALIGN_VERIF).", ref="DESIGN.md §4 C13",
              technique="z3/cvc5 QF_LRA over the linear decision function extracted from the running code on every run; CBMC for histogram-only dependence"),
